@@ -61,6 +61,11 @@ func (c *caseOrderChecker) checkTypeSwitch(s *ast.TypeSwitchStmt) {
 				c.warnUnknownType(cc, x)
 				return
 			}
+			if typ == types.Typ[types.UntypedNil] {
+				// `case nil` matches only the nil interface value,
+				// which no interface case matches.
+				continue
+			}
 			for _, iface := range ifaces {
 				if types.Implements(typ, iface.typ) {
 					c.warnTypeSwitch(cc, x, iface.node)
